@@ -130,6 +130,8 @@ fn cli_programs() -> Vec<CliProg> {
         CliProg { name: "last statements print nothing", text: "10 PRINT \"a\"\n20 Y = 1\n30 Y = Y + W\n", replies: "", analysis_error: false },
         CliProg { name: "first statement fails", text: "10 PRINT X / 0\n20 PRINT \"no\"\n", replies: "", analysis_error: false },
         CliProg { name: "colon-only line as a jump target", text: "10 GOTO 30\n20 PRINT \"skipped\"\n30 :\n40 PRINT \"end\";K\n", replies: "", analysis_error: false },
+        CliProg { name: "INPUT after an unfinished output line", text: "10 PRINT \"NAME\";\n20 INPUT N$\n30 PRINT \"HI \";N$;\n40 INPUT M: PRINT M + G\n", replies: "BOB\nx\n7\n", analysis_error: false },
+        CliProg { name: "INPUT in a loop with surplus items", text: "10 FOR I = 1 TO 2: PRINT I;: INPUT V: PRINT V,: NEXT I\n20 PRINT \"done\"\n", replies: "1,2\n3\n", analysis_error: false },
         CliProg { name: "long unbroken output", text: "10 FOR I = 1 TO 120: PRINT \"xyz\";: NEXT I\n20 PRINT L\n", replies: "", analysis_error: false },
     ]
 }
